@@ -150,3 +150,68 @@ pub proof fn lemma_valb_is_valr(s: Seq<u8>, bits: nat, k: nat)
 
 /// byte order reversal (big-endian byte forms)
 pub open spec fn rev8(s: Seq<u8>) -> Seq<u8> { Seq::new(s.len(), |i: int| s[s.len() - 1 - i]) }
+
+/// big-endian (Horner) value of the first k digits
+pub open spec fn valbe(s: Seq<u8>, radix: nat, k: nat) -> nat
+    decreases k
+{
+    if k == 0 { 0 } else { valbe(s, radix, (k - 1) as nat) * radix + (s[k - 1] as nat) }
+}
+
+pub proof fn lemma_valbe_ext(s: Seq<u8>, t: Seq<u8>, radix: nat, k: nat)
+    requires forall|i: int| 0 <= i < k ==> s[i] == t[i]
+    ensures valbe(s, radix, k) == valbe(t, radix, k)
+    decreases k
+{
+    if k > 0 { lemma_valbe_ext(s, t, radix, (k - 1) as nat); }
+}
+
+
+/// head form of valr: t[0] + radix * value of the rest
+pub proof fn lemma_valr_shift(t: Seq<u8>, radix: nat, n: nat)
+    requires n + 1 <= t.len(), radix >= 1
+    ensures valr(t, radix, n + 1) == (t[0] as nat) + radix * valr(t.subrange(1, t.len() as int), radix, n)
+    decreases n
+{
+    let u = t.subrange(1, t.len() as int);
+    vstd::arithmetic::power::lemma_pow0(radix as int);
+    if n == 0 {
+        assert((t[0] as nat) * 1 == t[0] as nat && radix * 0 == 0) by (nonlinear_arith);
+        assert(valr(t, radix, 1) == valr(t, radix, 0) + (t[0] as nat) * (vstd::arithmetic::power::pow(radix as int, 0) as nat));
+        assert(valr(u, radix, 0) == 0);
+    } else {
+        lemma_valr_shift(t, radix, (n - 1) as nat);
+        assert(u[n - 1] == t[n as int]);
+        vstd::arithmetic::power::lemma_pow_positive(radix as int, (n - 1) as nat);
+        vstd::arithmetic::power::lemma_pow_positive(radix as int, n);
+        vstd::arithmetic::power::lemma_pow_adds(radix as int, 1, (n - 1) as nat);
+        vstd::arithmetic::power::lemma_pow1(radix as int);
+        let pn1 = vstd::arithmetic::power::pow(radix as int, (n - 1) as nat) as nat;
+        let pn = vstd::arithmetic::power::pow(radix as int, n) as nat;
+        assert(pn == radix * pn1);
+        let x = t[n as int] as nat;
+        let a = valr(u, radix, (n - 1) as nat);
+        assert(radix * (a + x * pn1) == radix * a + x * (radix * pn1)) by (nonlinear_arith);
+        assert(valr(t, radix, n + 1) == valr(t, radix, n) + x * pn);
+        assert(valr(u, radix, n) == a + x * pn1);
+    }
+}
+
+/// the Horner (big-endian) value of s is the little-endian value of s reversed
+pub proof fn lemma_valbe_is_valr(s: Seq<u8>, radix: nat)
+    requires radix >= 1
+    ensures valbe(s, radix, s.len()) == valr(rev8(s), radix, s.len())
+    decreases s.len()
+{
+    if s.len() > 0 {
+        let n = (s.len() - 1) as nat;
+        let p = s.subrange(0, n as int);
+        lemma_valbe_is_valr(p, radix);
+        lemma_valbe_ext(p, s, radix, n);
+        let t = rev8(s);
+        lemma_valr_shift(t, radix, n);
+        assert(t.subrange(1, t.len() as int) =~= rev8(p));
+        assert(t[0] == s[n as int]);
+        assert(radix * valbe(p, radix, n) == valbe(p, radix, n) * radix) by (nonlinear_arith);
+    }
+}
